@@ -6,3 +6,44 @@ from xknx.dpt import DPTBase
 def dpt_classes():
     """All concrete transcoder classes, as the library itself enumerates them."""
     return sorted(DPTBase.dpt_class_tree(), key=lambda c: (c.__module__, c.__name__))
+
+
+def _codec_source(c):
+    import inspect
+
+    parts = []
+    for name in ("from_knx", "to_knx", "_to_knx"):
+        f = getattr(c, name, None)
+        if f is not None:
+            try:
+                parts.append(inspect.getsource(f))
+            except (OSError, TypeError):
+                pass
+    return "".join(parts)
+
+
+FLOAT_MODULES = ("dpt_14", "dpt_9", "dpt_8", "dpt_242", "dpt_243", "dpt_249")
+FLOAT_CLASS_NAMES = ("DPTScaling", "DPTAngle")
+
+
+def uses_floats(c):
+    """Work split only: does the codec of this class compute with floats? (every class is in exactly
+    one of float_classes() / int_classes())"""
+    return c.__module__.split(".")[-1] in FLOAT_MODULES or c.__name__ in FLOAT_CLASS_NAMES
+
+
+def int_classes():
+    return [c for c in dpt_classes() if not uses_floats(c)]
+
+
+def float_classes():
+    return [c for c in dpt_classes() if uses_floats(c)]
+
+
+def text_classes():
+    return [c for c in dpt_classes() if c.__module__.split(".")[-1] in ("dpt_16", "dpt_4")]
+
+
+def int_classes_no_text():
+    t = set(text_classes())
+    return [c for c in int_classes() if c not in t]
